@@ -307,14 +307,26 @@ func (Prop) Run(c *engine.Ctx) {
 		if smOnly && !s.p.sm {
 			continue
 		}
-		c.Case(fmt.Sprintf("signed/e3/%s/%s/len=%d/%s", s.p.name, s.m.name, s.n, setName(s.set)), func(t *engine.T) {
-			fms := getPKI(t)
-			f := fms[s.p.fam]
-			content := contentOf(s.n)
-			signedE3(t, f, fmt.Sprintf("%s/%s/%s", s.m.name, s.p.name, setName(s.set)), s.m, content, func() ([]byte, []byte, error) {
-				return buildSigned(f, s.p, s.m, content, s.set)
-			}, false)
-		})
+		// the three-signer seeds (largest artefacts) are split into one case per verification mode to keep a case short
+		splits := [][]bool{{false, true}}
+		if len(s.set) == 3 {
+			splits = [][]bool{{false}, {true}}
+		}
+		for _, tm := range splits {
+			tm := tm
+			name := fmt.Sprintf("signed/e3/%s/%s/len=%d/%s", s.p.name, s.m.name, s.n, setName(s.set))
+			if len(tm) == 1 {
+				name += map[bool]string{false: "/no-truststore", true: "/truststore"}[tm[0]]
+			}
+			c.Case(name, func(t *engine.T) {
+				fms := getPKI(t)
+				f := fms[s.p.fam]
+				content := contentOf(s.n)
+				signedE3(t, f, fmt.Sprintf("%s/%s/%s", s.m.name, s.p.name, setName(s.set)), s.m, content, func() ([]byte, []byte, error) {
+					return buildSigned(f, s.p, s.m, content, s.set)
+				}, false, tm)
+			})
+		}
 	}
 	// cfca-produced signed messages: E3 + wrapper agreement on every mutant
 	for _, m := range []signMode{modes[2], modes[3], modes[5]} {
@@ -324,7 +336,7 @@ func (Prop) Run(c *engine.Ctx) {
 			f := fms["sm2"]
 			content := contentOf(17)
 			id := f.leaf[0]
-			signedE3(t, f, "cfca/"+m.name, m, content, func() ([]byte, []byte, error) { return cfcaBuild(id, m, content) }, true)
+			signedE3(t, f, "cfca/"+m.name, m, content, func() ([]byte, []byte, error) { return cfcaBuild(id, m, content) }, true, []bool{false, true})
 		})
 	}
 
